@@ -296,6 +296,85 @@ pub fn run(ctx: &Ctx) -> Report {
     });
     rep.merge(r);
 
+    // ---- one transient transport error (Interrupted / WouldBlock / TimedOut) somewhere in the
+    //      connection phase or behind it, with the handshake response arriving in pieces: whether the
+    //      server gives up or carries on, after_authentication sees the client's user name or is not
+    //      called at all, at most once, and a login it never saw is never acknowledged
+    if !ctx.miri {
+        let n = ctx.n(1500, 40_000);
+        let r = par_cases(ctx, "C11", "transient-errors", n, |rng, i, rep| {
+            let user: Vec<u8> = user_name(rng, i).into_iter().filter(|b| *b != 0).take(200).collect();
+            let layout41 = i % 4 != 3;
+            let tl = rng.below(30) as usize;
+            let tail = rng.bytes(tl);
+            let caps = (rng.next() as u32) & !CLIENT_SSL;
+            let hs = if layout41 { wire::handshake41(caps, rng.next() as u32, 0x21, &user, &tail) } else { wire::handshake320((caps as u16) & !(CLIENT_PROTOCOL_41 as u16), 1 << 20, &user, &tail) };
+            let depth = (i % 3) as usize;
+            let mut cmds = Vec::new();
+            let mut scripts = Vec::new();
+            for k in 0..depth {
+                cmds.push(Cmd::query(format!("q{}", k).as_bytes()));
+                scripts.push(Script::Q(QProg::completed(k as u64, 0)));
+            }
+            let mut case = Case::new(cmds, scripts);
+            case.handshake = hs;
+            let (input, _) = case.input();
+            let sk = *rng.pick(&[SchedKind::OneByte, SchedKind::HeaderCuts, SchedKind::Random, SchedKind::Fixed]);
+            case.sched = make_sched(rng, sk, &input);
+            let dry = run_case(&case);
+            if harness_panic(&dry, rep) {
+                return;
+            }
+            // most of the operations of such a short conversation belong to the connection phase
+            case.fault.err_at = Some(rng.below(dry.world.nops.max(1)));
+            case.fault.persistent = false;
+            case.fault.err_kind = 100 + (i / 4 % 3) as u8;
+            let obs = run_case(&case);
+            rep.evaluations += 1;
+            if harness_panic(&obs, rep) {
+                return;
+            }
+            let kname = ["Interrupted", "WouldBlock", "TimedOut"][(case.fault.err_kind - 100) as usize];
+            rep.counters.class(format!("transient {} on {:?} during a {} login -> {}", kname, obs.world.fault_op, if layout41 { "4.1" } else { "3.20" }, obs.outcome.class()));
+            let d = || J::obj().set("layout", if layout41 { "HandshakeResponse41" } else { "HandshakeResponse320" }).set("user", show(&user)).set("fault", format!("{} at transport operation #{} ({:?})", kname, case.fault.err_at.unwrap(), obs.world.fault_op)).set("sched", case.sched.describe()).set("outcome", obs.outcome.describe());
+            if i < 1 {
+                rep.sample(d());
+            }
+            let mut fail = |sig: &str, what: String, rep: &mut Report| rep.violations.push(viol("C11", format!("C11 transient:{}", sig), what, d()));
+            if let Outcome::Panic { file, line, msg } = &obs.outcome {
+                fail(&panic_signature(file, *line, msg), format!("a transient {} made run_on panic: {}", kname, obs.outcome.describe()), rep);
+                return;
+            }
+            let auths: Vec<&Cb> = obs.log.cbs.iter().filter(|c| matches!(c.kind, CbKind::Auth { .. })).collect();
+            let commands = obs.log.cbs.len() - auths.len();
+            if auths.len() > 1 {
+                fail("auth-count", format!("after_authentication was called {} times", auths.len()), rep);
+                return;
+            }
+            if let Some(CbKind::Auth { user: got, .. }) = auths.first().map(|a| &a.kind) {
+                if got.as_deref() != Some(&user[..]) {
+                    fail("user-name-differs", format!("after a transient {} on {:?}, after_authentication saw user {:?}; the client sent {}", kname, obs.world.fault_op, got.as_ref().map(|u| show(u)), show(&user)), rep);
+                    return;
+                }
+            }
+            if auths.is_empty() {
+                let out = obs.output();
+                let (pkts, _) = wire::packets_prefix(&out);
+                let (msgs, _) = wire::messages_prefix(&out, &pkts);
+                if commands > 0 || msgs.len() > 1 && msgs[1].payload.first() == Some(&0) {
+                    fail("acknowledged-without-auth", format!("{} commands served / login acknowledged although after_authentication was never called", commands), rep);
+                    return;
+                }
+            }
+            if obs.outcome == Outcome::Ok && (auths.len() != 1 || commands != depth) {
+                fail("ok-but-incomplete", format!("run_on returned Ok with {} after_authentication calls and {} of {} commands served", auths.len(), commands, depth), rep);
+                return;
+            }
+            rep.counters.inc("transient_errors_in_connection_phase_judged");
+        });
+        rep.merge(r);
+    }
+
     // ---- a shim that implements only the required methods: the trait's defaults are in force (no
     //      TLS offered, every login accepted). The greeting must not advertise TLS, any user gets OK
     //      with the next id and the commands behind it are served; a TLS request is refused.
